@@ -202,3 +202,11 @@ type InvalidAccountName struct {
 func (e InvalidAccountName) Error() string {
 	return fmt.Sprintf("Invalid account name: '%s'", e.Name)
 }
+
+type DuplicateRemainingErr struct {
+	parser.Range
+}
+
+func (e DuplicateRemainingErr) Error() string {
+	return "Invalid allotment: only one 'remaining' clause is allowed"
+}
